@@ -1556,3 +1556,10 @@ func specListed(ids []*ast.Identifier, name string) bool {
 //@   props X00 C04
 //@   panics allowed
 //@   claim[C04] nilifc[ti.Type
+
+// C04, `func f() (...) {}`: the ellipsis of a parameter list may come without
+// a type; the parser must not ask the position of that missing type.
+//@ func (*parsing).parseFuncParameters
+//@   props X00 C04
+//@   panics allowed
+//@   claim[C04] nilifc[ellipses.param.Type
